@@ -1058,6 +1058,13 @@ func checkC16(c *core.Ctx) {
 	} else {
 		c.Check("R5", "the readonly marker reaches formatStruct", p.Pos(ff.Pos()), raised, "no boolean set in the readonly arm is passed to formatStruct: `readonly struct` is formatted as `struct`")
 	}
+	// ---- R5c: a marker the formatter raises in its arm for an attribute
+	// ([flags], [opcode(...)]) and hands to a per-definition formatter survives
+	// the comments that may stand between the attribute and the definition:
+	// ReadFile keeps such an attribute pending across comment tokens (C11/R1b),
+	// so a formatter that forgets it there formats the definition as if the
+	// attribute were absent
+	attributeMarkersSurviveComments(c, p, ff, top)
 	// ---- R5b: what the parser lets stand between `readonly` and the record
 	// keyword, the formatter's marker survives. The parser's arm: calls that are
 	// handed the reader before the arm's first own Next() may skip tokens (a
@@ -1991,4 +1998,124 @@ func readonlyDerived(info *types.Info, ff *ast.FuncDecl, passed map[types.Object
 		return true
 	})
 	return found
+}
+
+func attributeMarkersSurviveComments(c *core.Ctx, p *load.Prog, ff *ast.FuncDecl, top *ast.SwitchStmt) {
+	if top == nil {
+		return
+	}
+	info := p.Bebop().TypesInfo
+	isBoolVar := func(e ast.Expr) types.Object {
+		id, ok := ast.Unparen(e).(*ast.Ident)
+		if !ok {
+			return nil
+		}
+		o := info.ObjectOf(id)
+		if o == nil {
+			return nil
+		}
+		if b, isB := o.Type().Underlying().(*types.Basic); !isB || b.Kind() != types.Bool {
+			return nil
+		}
+		return o
+	}
+	// booleans handed to a formatter of the package
+	passed := map[types.Object]bool{}
+	ast.Inspect(ff.Body, func(n ast.Node) bool {
+		if call, ok := n.(*ast.CallExpr); ok && strings.HasPrefix(wire.Canon(call.Fun), "format") {
+			for _, a := range call.Args {
+				if o := isBoolVar(a); o != nil {
+					passed[o] = true
+				}
+			}
+		}
+		return true
+	})
+	clauseOf := func(kind string) *ast.CaseClause {
+		for _, cc := range top.Body.List {
+			cl := cc.(*ast.CaseClause)
+			for _, e := range cl.List {
+				if wire.Canon(e) == kind {
+					return cl
+				}
+			}
+		}
+		return nil
+	}
+	attr := clauseOf("tokenKindOpenSquare")
+	if attr == nil {
+		return
+	}
+	// markers: passed booleans assigned in the attribute arm
+	markers := map[types.Object]bool{}
+	ast.Inspect(attr, func(n ast.Node) bool {
+		if as, ok := n.(*ast.AssignStmt); ok {
+			for _, l := range as.Lhs {
+				if o := isBoolVar(l); o != nil && passed[o] {
+					markers[o] = true
+				}
+			}
+		}
+		return true
+	})
+	n := 0
+	for m := range markers {
+		n++
+		clearsIn := func(node ast.Node) bool {
+			found := false
+			ast.Inspect(node, func(k ast.Node) bool {
+				if as, ok := k.(*ast.AssignStmt); ok && len(as.Lhs) == len(as.Rhs) {
+					for i, l := range as.Lhs {
+						if isBoolVar(l) == m {
+							if tv := info.Types[as.Rhs[i]]; tv.Value != nil && tv.Value.ExactString() == "false" {
+								found = true
+							}
+						}
+					}
+				}
+				return !found
+			})
+			return found
+		}
+		// a clearing statement of the loop body outside the switch reaches every
+		// clause that does not leave the iteration with continue
+		var loopBody *ast.BlockStmt
+		ast.Inspect(ff.Body, func(k ast.Node) bool {
+			if f, ok := k.(*ast.ForStmt); ok && f.Body.Pos() <= top.Pos() && top.End() <= f.Body.End() {
+				loopBody = f.Body
+			}
+			return true
+		})
+		tailClears := false
+		if loopBody != nil {
+			for _, st := range loopBody.List {
+				if st.Pos() > top.End() && clearsIn(st) {
+					tailClears = true
+				}
+			}
+		}
+		lost := ""
+		for _, kind := range []string{"tokenKindLineComment", "tokenKindBlockComment"} {
+			cl := clauseOf(kind)
+			if cl == nil {
+				// no arm of its own: the token falls through the switch to the tail
+				if tailClears {
+					lost = kind
+				}
+				continue
+			}
+			endsInContinue := false
+			if k := len(cl.Body); k > 0 {
+				if br, ok := cl.Body[k-1].(*ast.BranchStmt); ok && br.Tok == token.CONTINUE {
+					endsInContinue = true
+				}
+			}
+			if clearsIn(cl) || (tailClears && !endsInContinue) {
+				lost = kind
+			}
+		}
+		c.Check("R5c", "the formatter's marker "+m.Name()+" raised by an attribute survives the comments before the definition", p.Pos(attr.Pos()), lost == "",
+			"format raises "+m.Name()+" in its arm for `[` and hands it to a definition's formatter, but clears it on a "+lost+" token: ReadFile keeps the attribute pending across comments, so `[flags]`, a doc comment, and then the enum is one flags enum for the parser and a plain one for the formatter, which then copies only part of each member's value")
+	}
+	c.Count("formatter_attribute_markers", n)
 }
